@@ -163,7 +163,7 @@ def eval_ilv(case):
             if want != got:
                 V.append(Violation('isolation.listing', case, {'solo': want, 'interleaved': got}))
     except Exception:
-        V.append(Violation('exception', case, {'traceback': traceback.format_exc()[-1500:]}))
+        V.append(sut.exc_violation(case))
     switches = sum(1 for a, b in zip(case['order'], case['order'][1:]) if a != b)
     return Eval(V, outcome=[case['scripts'], len(V)], nontrivial=switches >= 2,
                 transitions=2 * len(case['order']))
@@ -284,7 +284,7 @@ def run_sink(hist, check_from=0):
                 for v in sub:
                     V.append(Violation('sink.' + v.kind, case, dict(v.detail, connection=i['name'])))
     except Exception:
-        V.append(Violation('exception', case, {'traceback': traceback.format_exc()[-1500:]}))
+        V.append(sut.exc_violation(case))
     return V, reg
 
 
